@@ -2,13 +2,28 @@ package vsched
 
 import (
 	"fmt"
+	"os"
+	"strconv"
 	"strings"
+	"time"
 )
+
+// runDeadline is the soft deadline of the whole check run (set by the runner
+// through VLIB_DEADLINE_UNIX); an exploration that reaches it stops and reports
+// Capped, exactly like an execution cap.
+func runDeadline() time.Time {
+	if v := os.Getenv("VLIB_DEADLINE_UNIX"); v != "" {
+		if n, err := strconv.ParseInt(v, 10, 64); err == nil {
+			return time.Unix(n, 0)
+		}
+	}
+	return time.Time{}
+}
 
 // Config bounds an exploration.
 type Config struct {
-	MaxPreempt int   // preemption bound (switching away from an enabled thread); <0 = unbounded
-	MaxDev     int   // deviation bound (environment answers other than the default); <0 = unbounded
+	MaxPreempt int // preemption bound (switching away from an enabled thread); <0 = unbounded
+	MaxDev     int // deviation bound (environment answers other than the default); <0 = unbounded
 	// MaxFree bounds the non-default choices taken at *free* thread decisions
 	// (the running thread blocked or finished, several others enabled; the
 	// default is the lowest thread id).  0 means unbounded (the classic
@@ -18,8 +33,8 @@ type Config struct {
 	// MaxTotal, if > 0, bounds preemptions + free deviations + environment
 	// deviations together.
 	MaxTotal int
-	MaxExecs   int64 // stop after this many executions (0 = no cap); hitting it sets Stats.Capped
-	MaxSteps   int   // per-execution step limit (livelock horizon)
+	MaxExecs int64 // stop after this many executions (0 = no cap); hitting it sets Stats.Capped
+	MaxSteps int   // per-execution step limit (livelock horizon)
 }
 
 // Stats describes what an exploration covered.
@@ -69,8 +84,13 @@ type frame struct {
 func Explore(cfg Config, body func(), check func(r *Result) string) (Stats, *Failure) {
 	st := Stats{Configs: map[uint32]struct{}{}, Outcomes: map[string]int64{}}
 	stack := []frame{{}}
+	deadline := runDeadline()
 	for len(stack) > 0 {
 		if cfg.MaxExecs > 0 && st.Execs >= cfg.MaxExecs {
+			st.Capped = true
+			break
+		}
+		if !deadline.IsZero() && st.Execs&31 == 31 && time.Now().After(deadline) {
 			st.Capped = true
 			break
 		}
